@@ -28,6 +28,8 @@ def _spec(module):
             'units': {'cJSON.c': 'core_min.c', 'cJSON_Utils.c': 'utils_bad.c'},
             'rules': [tab.tab8, tab.tab9, tab.tab10, tab.tab11, tab.tab12, lst.lst1, out.out5, out.out6, out.out7,
                       utilsx.tab18, utilsx.ord1, tab.tab20, utilsx.mrg, utilsx.esc1, utilsx.pfx1, utilsx.gen1, utilsx.gen2, utilsx.numu, utilsx.esc2, utilsx.esc3,
+                      lambda units, R: utilsx.ptr1(units, R, 'bad_PTR1_resolve'), lambda units, R: utilsx.ptr1(units, R, 'good_resolve'),
+                      lambda units, R: utilsx.ptr1(units, R, 'good_resolve_checked_first'),
                       lambda units, R: utilsx.dig1(units, R, unit_names=('cJSON_Utils.c',))],
         }]
     if module == 'parse':
@@ -45,7 +47,7 @@ def _spec(module):
             'rules': [lambda units, R: bnd3._run(units['cJSON.c'], names3, R, 0)],
         }]
     if module == 'tree':
-        from . import tree, shape, cmpfold
+        from . import tree, shape, cmpfold, numcls
         return [{
             'units': {'cJSON.c': 'tree_bad.c', 'cJSON_Utils.c': 'utils_min.c'},
             'rules': [tree.tab3, tree.tab14, lambda units, R: tree.tab14(units, R, 'good_dup_clone'),
@@ -54,7 +56,9 @@ def _spec(module):
                       lambda units, R: shape.shp1(units, R, editors=[
                           ('cJSON.c', 'bad_SHP1_detach', lambda u, f: shape._cases_detach_ptr(u, f, stray_case=False), 'remove the given element'),
                           ('cJSON.c', 'good_unlink', lambda u, f: shape._cases_detach_ptr(u, f, stray_case=False), 'remove the given element')]),
-                      lambda units, R: shape.shp3(units, R, names=('bad_SHP3_item_at', 'good_item_at', 'bad_SHP3_last_member', 'good_first_member'))],
+                      lambda units, R: shape.shp3(units, R, names=('bad_SHP3_item_at', 'good_item_at', 'bad_SHP3_last_member', 'good_first_member')),
+                      lambda units, R: numcls.num4(units, R, unit_names=('cJSON.c',), fn_name='bad_NUM4_relative'),
+                      lambda units, R: numcls.num4(units, R, unit_names=('cJSON.c',), fn_name='good_relative')],
         }]
     if module == 'own':
         from . import own, parse
